@@ -343,29 +343,33 @@ def conc_mutants(cases):
     return dict(kind='custom', fn=fn)
 
 
-def hist_gen(label, maxops, fnset, timeout=1800):
+def hist_gen(label, maxops, fnset, timeout=1800, **kw):
     return dict(kind='gen', module='Gen_History', label=label, props='C05', timeout=timeout, check_count=False,
-                constants=dict(MaxOps=maxops, FnSet=fnset), invariants=['LawHistoryFree', 'Emit'])
+                constants=dict(MaxOps=maxops, FnSet=fnset), invariants=['LawHistoryFree', 'Emit'], **kw)
 
 
 def c05(tier):
     fph = lambda n, t=600: dict(kind='tlc', module='FilterProtoHist', label='filterproto-hist-%dcalls' % n, constants=dict(AsCoded=False, MaxCalls=n),
                                 invariants=['NoProtectedWrite', 'TreeImmutable', 'CallIsPure'], timeout=t)
     if tier == 'quick':
-        return [fph(2), conc_model('sequential', 1, 'P1'), hist_gen('histories3-all', 3, 'all')]
+        return [fph(2), conc_model('sequential', 1, 'P1'), hist_gen('histories3-all', 3, 'all'),
+                hist_gen('histories8-simulated', 8, 'all', timeout=10, simulate=1000000, depth=10, max_cases=6000)]
     return [fph(3, 3600), conc_model('sequential', 1, 'P1'), conc_mutants([('CopyOut', 1, 'P1', 'ResultsPrivate')]),
-            hist_gen('histories4-all', 4, 'all', 7200), hist_gen('histories5-core', 5, 'core', 7200)]
+            hist_gen('histories4-all', 4, 'all', 7200), hist_gen('histories5-core', 5, 'core', 7200),
+            hist_gen('histories8-simulated', 8, 'all', timeout=300, simulate=100000000, depth=10, max_cases=400000)]
 
 
 def c19(tier):
-    def ph(label, calls, size, timeout=1800):
-        return dict(kind='gen', module='Gen_ParseHist', label=label, props='C19', timeout=timeout, check_count=False,
+    def ph(label, calls, size, timeout=1800, **kw):
+        return dict(kind='gen', module='Gen_ParseHist', label=label, props='C19', timeout=timeout, check_count=False, **kw,
                     prepare=lambda sdir: vlib.write_parse_pool(sdir, size),
                     constants=dict(PoolFile='pool.ndjson', MaxCalls=calls), invariants=['LawDocumented', 'Emit'])
     if tier == 'quick':
-        return [conc_model('sequential', 1, 'P1'), ph('parse-histories3', 3, 'quick')]
+        return [conc_model('sequential', 1, 'P1'), ph('parse-histories3', 3, 'quick'),
+                ph('parse-histories10-simulated', 10, 'thorough', timeout=10, simulate=1000000, depth=12, max_cases=6000)]
     return [conc_model('sequential', 1, 'P1'), conc_mutants([('ResetParser', 1, 'P1', 'ResidueFree')]),
-            ph('parse-histories3-large-pool', 3, 'thorough', 7200), ph('parse-histories4', 4, 'quick', 14400)]
+            ph('parse-histories3-large-pool', 3, 'thorough', 7200), ph('parse-histories4', 4, 'quick', 14400),
+            ph('parse-histories10-simulated', 10, 'thorough', timeout=300, simulate=100000000, depth=12, max_cases=300000)]
 
 
 def c06_sched():
